@@ -481,7 +481,8 @@ def handle_failure(pid, u, f, tier):
         for c in cands[:6]:
             if not c.get('witness'):
                 continue
-            ok, log = native_replay(u, c['witness'], c['obligation'], None)
+            wit_in = dict(c['witness']); wit_in['description'] = c.get('description', '')
+            ok, log = native_replay(u, wit_in, c['obligation'], None)
             logs.append({'obligation': c['obligation'], 'witness': c['witness'], 'confirmed': ok, 'log': log})
             if ok:
                 confirmed = True
